@@ -118,6 +118,25 @@ def _bind_marginalize(eng, st, bound, res, node):
     if isinstance(attrs, E.Tup):
         attrs = eng.arr_from_tup(attrs)
     keep = lambda e, s, i: z3.Not(e.membership(s, attrs, A.at(e, s, i)))
+    idx_filters = [o for (_b, _k, o) in st.__dict__.get('_filters', []) if getattr(o, 'keep_idx', None) is not None and getattr(o, 'axes', 0) is None]
+    if idx_filters:
+        # basic indexing removed the axes whose index entry is an integer (Factor.condition): the LEMMA
+        #     for every position p of self.attrs:   entry p is slice(None)   <=>   self.attrs[p] not in attrs
+        # relates numpy's selection to marginalize's; the result is then introduced over numpy's own position function
+        out_np = idx_filters[-1]
+        keep_np = out_np.keep_idx
+        p = eng.fresh('lemma_p', E.I)
+        s2 = st.fork()
+        s2.assume(z3.And(p >= 0, p < A.n))
+        goal = keep_np(eng, s2, p) == keep(eng, s2, p)
+        eng.oblige(s2, 'lemma/kept-axis-positions-are-the-positions-of-the-attributes-without-evidence@L%d' % node.lineno, goal, kind='lemma')
+        eng.add_qfact(st, lambda e, s, i: z3.Implies(z3.And(i >= 0, i < A.n), keep_np(e, s, i) == keep(e, s, i)), name='lemma:index-positions')
+        pos = out_np.pos
+        kept = Arr(out_np.n, lambda e, s, j: A.at(e, s, pos(j)), name='kept-attrs')
+        kept.pos, kept.inv, kept.src = pos, out_np.inv, A
+        st.fields[(str(res.t), 'attrs')] = kept
+        st.fields[(str(res.t), 'shape')] = Arr(out_np.n, lambda e, s, j: S.at(e, s, pos(j)), name='kept-shape')
+        return
     np_filters = [o for (_b, _k, o) in st.__dict__.get('_filters', []) if getattr(o, 'axes', None) is not None]
     if np_filters:
         out_np = np_filters[-1]
@@ -162,6 +181,13 @@ _RESULT_FULL = dict(finv_named('result', 'inv'), **dict(D.inv_named('result.doma
                     **{'inv:real-names': 'forall(lambda p: real_name(result.domain.attrs[p]), 0, len(result.domain.attrs))',
                        'inv:sizes-of-self': 'forall(lambda p: result.domain.config[result.domain.attrs[p]] == self.domain.config[result.domain.attrs[p]], 0, len(result.domain.attrs))'}))
 REDUCE = dict(REDUCE, ensures=dict(REDUCE['ensures'], **{k.replace('inv', 'result-invariant', 1): v for k, v in _RESULT_FULL.items() if k not in ('inv:not-flat', 'inv:one-axis-per-attribute', 'inv:axes-labelled-by-domain-order', 'inv:axis-sizes-from-domain')}))
+# conditioning on evidence {attribute: value}: the attributes with evidence disappear, the others keep the order of self
+# (evidence naming attributes outside the factor is ignored; integer values in range are the caller's business: value level)
+CONDITION = dict(BASE, params=dict(self='obj:Factor', evidence='dict:int'), dict_in_is_key_membership=True, domain_iterates_attrs=True,
+                 requires=finv('self'),
+                 ensures=dict({'remaining:' + k: (v % dict(r='result.domain.attrs')).replace('self.attrs', 'self.domain.attrs').replace(' attrs)', ' evidence.keys())')
+                               for k, v in D._COMPLEMENT.items()},
+                              **{k.replace('inv', 'result-invariant', 1): v for k, v in _RESULT_FULL.items()}))
 # callee contracts of the aggregations and of transpose, as used by Factor.project
 REDUCE_CALLEE = dict(arg_names=['attrs'], returns='obj:Factor', requires=list(_RED_REQ), ensures=dict(_REMAINING, **_RESULT_FULL))
 TRANSPOSE_CALLEE = dict(arg_names=['attrs'], returns='obj:Factor',
@@ -189,7 +215,7 @@ REG_RED['.invert'] = INVERT_CALLEE
 # own, see _bind_marginalize) and by model-based instantiation of the solver's answers (pv/vc/arrays.py: refine).
 REG_PROJ = dict(REG)
 REG_PROJ.update({'.sum': REDUCE_CALLEE, '.logsumexp': REDUCE_CALLEE, '.transpose': TRANSPOSE_CALLEE})
-AGGREGATIONS = [('Factor.sum', REDUCE, REG_RED, 'attribute list'), ('Factor.logsumexp', REDUCE, REG_RED, 'attribute list'),
+AGGREGATIONS = [('Factor.condition', CONDITION, REG_RED, 'evidence dict'), ('Factor.sum', REDUCE, REG_RED, 'attribute list'), ('Factor.logsumexp', REDUCE, REG_RED, 'attribute list'),
                 ('Factor.max', REDUCE, REG_RED, 'attribute list'), ('Factor.project', PROJECT, REG_PROJ, '')]
 STRETCH = AGGREGATIONS
 
